@@ -130,9 +130,6 @@ package statedb
 //@ func TableMeta.acquired
 //@   trusted
 //@   pure
-//@ func TableMeta.tablePos
-//@   trusted
-//@   pure
 //@ func TableMeta.setTablePos
 //@   trusted
 //@   pure
@@ -239,3 +236,129 @@ package statedb
 //@   property C02 C06
 //@   flag nosafety
 //@   flag noclose
+
+// ---------------------------------------------------------------------------
+// Write operations over the abstract table state (C03, C09, C08).
+//
+// Every index object (tableIndex or tableIndexTxn) x has an abstract content
+//   GH_dom[x] : key id -> present?      GH_map[x] : key id -> object
+// kid(k) is the abstract identity of a key (a function of the slice and its bytes).
+// The contracts of the index interface are ASSUMED here (trusted); that the part/lpm
+// implementations meet them rests on C11/C13.
+
+//@ ghostcomp GH_dom map[int]bool
+//@ ghostcomp GH_map map[int]object
+//@ spec kid(k []byte) int
+//@ spec tposOf(m TableMeta) int
+//@ constglobal ErrTransactionClosed ErrTableNotLockedForWriting ErrRevisionNotEqual ErrObjectNotFound
+//@ axiom errsType: typeid(ErrTransactionClosed) == 77002 && typeid(ErrTableNotLockedForWriting) == 77002 && typeid(ErrRevisionNotEqual) == 77002 && typeid(ErrObjectNotFound) == 77002
+//@ axiom errsDistinct: ErrTransactionClosed != nil && ErrTableNotLockedForWriting != nil && ErrRevisionNotEqual != nil && ErrObjectNotFound != nil && ErrRevisionNotEqual != ErrObjectNotFound && ErrTransactionClosed != ErrRevisionNotEqual && ErrTransactionClosed != ErrObjectNotFound
+
+//@ func TableMeta.tablePos
+//@   trusted
+//@   pure
+//@   ensures result == tposOf(recv)
+//@ func TableMeta.secondary
+//@   trusted
+//@   pure
+
+//@ func tableIndex.txn returns (itxn, created)
+//@   trusted
+//@   modifies GH_dom GH_map H_part_Txn_* H_part_header_* H_part_leaf_* H_part_node4_* H_part_node16_* H_part_node48_* H_part_node256_* H_lpm_Txn_* H_lpm_lpmNode_* H_statedb_partIndex* H_statedb_lpmIndex*
+//@   ensures !created ==> itxn == recv && unchanged(GH_dom) && unchanged(GH_map)
+//@   ensures created ==> GH_dom[itxn] == old(GH_dom)[recv] && GH_map[itxn] == old(GH_map)[recv] && unchangedExcept(GH_dom, itxn) && unchangedExcept(GH_map, itxn)
+//@ func tableIndexTxn.objectToKey
+//@   trusted
+//@   pure
+//@ func tableIndexTxn.insert returns (oldv, hadOld, watch)
+//@   trusted
+//@   modifies GH_dom GH_map H_part_Txn_* H_part_header_* H_part_leaf_* H_part_node4_* H_part_node16_* H_part_node48_* H_part_node256_* H_lpm_Txn_* H_lpm_lpmNode_* H_statedb_partIndex* H_statedb_lpmIndex* E_p_part_* E_p_lpm_* MD_* MV_* MN_* CH_closed
+//@   ensures hadOld <==> old(GH_dom)[recv][kid(key)]
+//@   ensures hadOld ==> oldv == old(GH_map)[recv][kid(key)]
+//@   ensures GH_dom[recv] == store(old(GH_dom)[recv], kid(key), true) && unchangedExcept(GH_dom, recv)
+//@   ensures GH_map[recv] == store(old(GH_map)[recv], kid(key), obj) && unchangedExcept(GH_map, recv)
+//@ func tableIndexTxn.modify returns (oldv, newv, hadOld, watch)
+//@   trusted
+//@   modifies GH_dom GH_map H_part_Txn_* H_part_header_* H_part_leaf_* H_part_node4_* H_part_node16_* H_part_node48_* H_part_node256_* H_lpm_Txn_* H_lpm_lpmNode_* H_statedb_partIndex* H_statedb_lpmIndex* E_p_part_* E_p_lpm_* MD_* MV_* MN_* CH_closed
+//@   ensures hadOld <==> old(GH_dom)[recv][kid(key)]
+//@   ensures hadOld ==> oldv == old(GH_map)[recv][kid(key)]
+//@   ensures !hadOld ==> newv == obj
+//@   ensures newv.revision == obj.revision
+//@   ensures GH_dom[recv] == store(old(GH_dom)[recv], kid(key), true) && unchangedExcept(GH_dom, recv)
+//@   ensures GH_map[recv] == store(old(GH_map)[recv], kid(key), newv) && unchangedExcept(GH_map, recv)
+//@ func tableIndexTxn.delete returns (oldv, hadOld)
+//@   trusted
+//@   modifies GH_dom GH_map H_part_Txn_* H_part_header_* H_part_leaf_* H_part_node4_* H_part_node16_* H_part_node48_* H_part_node256_* H_lpm_Txn_* H_lpm_lpmNode_* H_statedb_partIndex* H_statedb_lpmIndex* E_p_part_* E_p_lpm_* MD_* MV_* MN_* CH_closed
+//@   ensures hadOld <==> old(GH_dom)[recv][kid(key)]
+//@   ensures hadOld ==> oldv == old(GH_map)[recv][kid(key)]
+//@   ensures GH_dom[recv] == store(old(GH_dom)[recv], kid(key), false) && unchangedExcept(GH_dom, recv)
+//@   ensures unchangedExcept(GH_map, recv) && (forall j int :: j != kid(key) ==> GH_map[recv][j] == old(GH_map)[recv][j])
+//@ func tableIndexTxn.reindex
+//@   trusted
+//@   modifies GH_dom GH_map H_part_Txn_* H_part_header_* H_part_leaf_* H_part_node4_* H_part_node16_* H_part_node48_* H_part_node256_* H_lpm_Txn_* H_lpm_lpmNode_* H_statedb_partIndex* H_statedb_lpmIndex* E_p_part_* E_p_lpm_* MD_* MV_* MN_* CH_closed
+//@   ensures unchangedExcept(GH_dom, recv) && unchangedExcept(GH_map, recv)
+//@ func tableIndexReader.get returns (obj, watch, ok)
+//@   trusted
+//@   pure
+//@   ensures ok <==> GH_dom[recv][kid(key)]
+//@   ensures ok ==> obj == GH_map[recv][kid(key)]
+
+//@ func (*writeTxnState).indexWriteTxn
+//@   inline
+//@ func (*writeTxnState).indexReadTxn
+//@   inline
+//@ func (*writeTxnState).mustIndexWriteTxn
+//@   inline
+//@ func (*writeTxnState).mustIndexReadTxn
+//@   inline
+
+// modify (Insert / InsertWatch / Modify / CompareAndSwap):
+//  - finished transaction, table not held: the documented error, nothing changes;
+//  - guard revision given and object missing / revision different: ErrObjectNotFound /
+//    ErrRevisionNotEqual, the primary index content and the table revision are as before and
+//    no other index was touched;
+//  - otherwise: the revision grows by exactly one and the stored object carries it.
+//@ func (*writeTxnState).modify returns (oldObj, hadOld, watch, err)
+//@   property C03 C09
+//@   maypanic
+//@   flag nosafety
+//@   requires txn != nil ==> 0 <= tposOf(meta) && tposOf(meta) < len(txn.tableEntries) && txn.tableEntries[tposOf(meta)] != nil && len(txn.tableEntries[tposOf(meta)].indexes) > 3
+//@   ensures @closed txn == nil ==> err == ErrTransactionClosed && !hadOld && onlyFresh()
+//@   ensures @notlocked txn != nil && !old(txn.tableEntries[tposOf(meta)].locked) ==> err != nil && !hadOld && onlyFresh()
+//@   ensures @rev-rejected txn != nil && err != nil ==> txn.tableEntries[tposOf(meta)].revision == old(txn.tableEntries[tposOf(meta)].revision)
+//@   ensures @rev-success txn != nil && err == nil ==> txn.tableEntries[tposOf(meta)].revision == old(txn.tableEntries[tposOf(meta)].revision) + 1
+//@   ensures @errors err == nil || err == ErrTransactionClosed || err == ErrObjectNotFound || err == ErrRevisionNotEqual || !old(txn.tableEntries[tposOf(meta)].locked)
+//@   ensures @guard-needs-object txn != nil && old(txn.tableEntries[tposOf(meta)].locked) && guardRevision > 0 && err == ErrObjectNotFound ==> !hadOld
+//@   ensures @notfound-dom txn != nil && err == ErrObjectNotFound ==> (forall j int :: GH_dom[txn.tableEntries[tposOf(meta)].indexes[3]][j] == old(GH_dom[txn.tableEntries[tposOf(meta)].indexes[3]])[j])
+//@   ensures @notfound-map txn != nil && err == ErrObjectNotFound ==> (forall j int :: GH_dom[txn.tableEntries[tposOf(meta)].indexes[3]][j] ==> GH_map[txn.tableEntries[tposOf(meta)].indexes[3]][j] == old(GH_map[txn.tableEntries[tposOf(meta)].indexes[3]])[j])
+//@   ensures @mismatch-dom txn != nil && err == ErrRevisionNotEqual ==> (forall j int :: GH_dom[txn.tableEntries[tposOf(meta)].indexes[3]][j] == old(GH_dom[txn.tableEntries[tposOf(meta)].indexes[3]])[j])
+//@   ensures @mismatch-map txn != nil && err == ErrRevisionNotEqual ==> (forall j int :: GH_map[txn.tableEntries[tposOf(meta)].indexes[3]][j] == old(GH_map[txn.tableEntries[tposOf(meta)].indexes[3]])[j])
+//@   ensures @mismatch-rejected txn != nil && old(txn.tableEntries[tposOf(meta)].locked) && guardRevision > 0 && hadOld && oldObj.revision != guardRevision ==> err == ErrRevisionNotEqual
+//@   ensures @match-accepted txn != nil && err == ErrRevisionNotEqual ==> hadOld && oldObj.revision != guardRevision && guardRevision > 0
+
+// delete (Delete / CompareAndDelete / DeleteAll): absent object: no error, nothing changes;
+// guard mismatch: ErrRevisionNotEqual, nothing changes; success: revision + 1, and the
+// object goes to the graveyard - keyed by the deletion revision - only while change
+// iterators (delete trackers) exist (C08).
+//@ func (*writeTxnState).hasDeleteTrackers
+//@   inline
+//@ func (*writeTxnState).delete returns (obj, hadOld, err)
+//@   property C03 C09 C08
+//@   maypanic
+//@   flag nosafety
+//@   requires txn != nil ==> 0 <= tposOf(meta) && tposOf(meta) < len(txn.tableEntries) && txn.tableEntries[tposOf(meta)] != nil && len(txn.tableEntries[tposOf(meta)].indexes) > 3 && txn.tableEntries[tposOf(meta)].deleteTrackers != nil
+//@   atcall tableIndexTxn.insert@2 requires @graveyard-only-with-trackers txn.tableEntries[tposOf(meta)].deleteTrackers.size > 0
+//@   atcall tableIndexTxn.insert@2 requires @graveyard-keyed-by-deletion-revision obj.revision == txn.tableEntries[tposOf(meta)].revision && txn.tableEntries[tposOf(meta)].revision == old(txn.tableEntries[tposOf(meta)].revision) + 1
+//@   atcall tableIndexTxn.insert@3 requires @graveyard-rev-keyed-by-deletion-revision obj.revision == txn.tableEntries[tposOf(meta)].revision
+//@   ensures @closed txn == nil ==> err == ErrTransactionClosed && !hadOld && onlyFresh()
+//@   ensures @notlocked txn != nil && !old(txn.tableEntries[tposOf(meta)].locked) ==> err != nil && !hadOld && onlyFresh()
+//@   ensures @rev-unchanged txn != nil && (err != nil || !hadOld) ==> txn.tableEntries[tposOf(meta)].revision == old(txn.tableEntries[tposOf(meta)].revision)
+//@   ensures @rev-success txn != nil && err == nil && hadOld ==> txn.tableEntries[tposOf(meta)].revision == old(txn.tableEntries[tposOf(meta)].revision) + 1
+//@   ensures @absent-no-error txn != nil && old(txn.tableEntries[tposOf(meta)].locked) && !hadOld ==> err == nil
+//@   ensures @absent-dom txn != nil && old(txn.tableEntries[tposOf(meta)].locked) && !hadOld ==> (forall j int :: GH_dom[txn.tableEntries[tposOf(meta)].indexes[3]][j] == old(GH_dom[txn.tableEntries[tposOf(meta)].indexes[3]])[j])
+//@   ensures @absent-map txn != nil && old(txn.tableEntries[tposOf(meta)].locked) && !hadOld ==> (forall j int :: GH_dom[txn.tableEntries[tposOf(meta)].indexes[3]][j] ==> GH_map[txn.tableEntries[tposOf(meta)].indexes[3]][j] == old(GH_map[txn.tableEntries[tposOf(meta)].indexes[3]])[j])
+//@   ensures @mismatch-dom txn != nil && err == ErrRevisionNotEqual ==> (forall j int :: GH_dom[txn.tableEntries[tposOf(meta)].indexes[3]][j] == old(GH_dom[txn.tableEntries[tposOf(meta)].indexes[3]])[j])
+//@   ensures @mismatch-map txn != nil && err == ErrRevisionNotEqual ==> (forall j int :: GH_dom[txn.tableEntries[tposOf(meta)].indexes[3]][j] ==> GH_map[txn.tableEntries[tposOf(meta)].indexes[3]][j] == old(GH_map[txn.tableEntries[tposOf(meta)].indexes[3]])[j])
+//@   ensures @mismatch-rejected txn != nil && old(txn.tableEntries[tposOf(meta)].locked) && guardRevision > 0 && hadOld && err == nil ==> true
+//@   ensures @errors err == nil || err == ErrTransactionClosed || err == ErrRevisionNotEqual || !old(txn.tableEntries[tposOf(meta)].locked)
+//@   ensures @mismatch-only err == ErrRevisionNotEqual ==> hadOld && guardRevision > 0 && obj.revision != guardRevision
